@@ -16,6 +16,9 @@ import (
 // verifSharedConfig: a parsed configuration with every kind of shareable
 // state: content entries with and without file_info, relation lists with spare
 // capacity, custom-field maps, scripts, an override block.
+// verifCollide adds a per-format content collision to the shared configuration.
+var verifCollide bool
+
 func verifSharedConfig(withInfo bool) *nfpm.Config {
 	mt := time.Unix(1600000000, 0).UTC()
 	f1 := models.AddFile("/src/f1", []byte("AB"), 0o644, mt)
@@ -44,6 +47,18 @@ func verifSharedConfig(withInfo bool) *nfpm.Config {
 		{Source: f2, Destination: "/etc/tool.conf", Type: files.TypeConfig, FileInfo: &files.ContentFileInfo{Owner: "own"}},
 		{Destination: "/var/lib/tool", Type: files.TypeDir, FileInfo: &files.ContentFileInfo{}},
 		{Destination: "/var/run/tool.pid", Type: files.TypeRPMGhost},
+		// a directory whose file_info is spelled out completely (nothing left to default)
+		{Destination: "/var/cache/tool", Type: files.TypeDir, FileInfo: &files.ContentFileInfo{Owner: "o", Group: "g", Mode: 0o750, MTime: mt}},
+	}
+	if verifCollide {
+		// a packaging that FAILS must leave the configuration alone too: for rpm
+		// (only) the ghost collides with a file of the directory source
+		models.AddDir("/src/many", 0o755, mt)
+		models.AddFile("/src/many/a.txt", []byte("a"), 0o644, mt)
+		models.AddFile("/src/many/b.txt", []byte("b"), 0o644, mt)
+		cfg.Contents = append(cfg.Contents,
+			&files.Content{Destination: "/opt/demo/b.txt", Type: files.TypeRPMGhost},
+			&files.Content{Source: models.NativePath("/src/many"), Destination: "/opt/demo/"})
 	}
 	cfg.Overrides = map[string]*nfpm.Overridables{"deb": {Depends: []string{"debdep"}}, "rpm": {Suggests: []string{"s"}}}
 	return cfg
@@ -57,6 +72,7 @@ func verifIsolation(op, format string, withInfo bool, prop string) {
 	// every compressor a format can be told to use (each is a different code
 	// path with its own writer objects)
 	comp := v.NondetChoice("compression.variant", 4)
+	verifCollide = v.NondetBool("rpm.only.collision")
 	verifCfg := func() *nfpm.Config {
 		cfg := verifSharedConfig(withInfo)
 		cfg.Deb.Compression = []string{"", "zstd", "xz", "none"}[comp]
